@@ -142,5 +142,8 @@ package introspection
 //@   at `defaultValue(arg.DefaultValue)` requires arg0 == arg.DefaultValue
 //@   at `defaultValue(arg.DefaultValue)` ghost dflt = callres0
 //@   at `assign args[i]` requires rhs0.Name == arg.Name && rhs0.description == arg.Description && rhs0.Type == wrapped && rhs0.DefaultValue == dflt && i == idx2
+// each directive argument reports its OWN deprecation (ARGUMENT_DEFINITION covers directive definitions too)
+//@   at `assign args[i]` requires rhs0.deprecation == dirForName(arg.Directives, "deprecated")
+//@   replay introspectionFields.go.tmpl
 //@   ensures res0.Name == old(d.Name) && res0.description == old(d.Description) && res0.IsRepeatable == old(d.IsRepeatable)
 //@   ensures len(res0.Args) == old(len(d.Arguments)) && len(res0.Locations) == old(len(d.Locations))
